@@ -402,8 +402,8 @@ func (st *State) callFunc(fn *types.Func, recv *Val, args []Val, call *ast.CallE
 		if len(fct.PanicsIf) > 0 {
 			cond := st.calleePanicCond(fct, fn, recv, args)
 			ps := st.clone()
-			ps.facts = ps.facts.push(guarded(ps.guard, cond))
-			st.facts = st.facts.push(guarded(st.guard, sNot(cond)))
+			ps.addFact(guarded(ps.guard, cond))
+			st.addFact(guarded(st.guard, sNot(cond)))
 			vals := st.applyContract(fct, fn, recv, args, call)
 			return []Outcome{{st: st, kind: oNormal, vals: vals}, {st: ps, kind: oPanic}}
 		}
@@ -415,8 +415,8 @@ func (st *State) callFunc(fn *types.Func, recv *Val, args []Val, call *ast.CallE
 			// the callee panics exactly when its panics_if holds: fork a panicking outcome
 			cond := st.calleePanicCond(fct, fn, recv, args)
 			ps := st.clone()
-			ps.facts = ps.facts.push(guarded(ps.guard, cond))
-			st.facts = st.facts.push(guarded(st.guard, sNot(cond)))
+			ps.addFact(guarded(ps.guard, cond))
+			st.addFact(guarded(st.guard, sNot(cond)))
 			vals := st.applyContract(fct, fn, recv, args, call)
 			return []Outcome{{st: st, kind: oNormal, vals: vals}, {st: ps, kind: oPanic}}
 		}
